@@ -116,6 +116,19 @@ def check(case):
             fails.append(('far:count', '%d directions for %d x %d requested' % (len(zen), th[2], ph[2])))
         elif not all(close(z, w[0]) and close(a, w[1]) for z, a, w in zip(zen, azi, want)):
             fails.append(('far:angles', 'direction list differs from start+i*step (phi outer, theta inner)'))
+        # further requests on the same object that differ from the first in one count only
+        for th2, ph2 in (([th[0], th[1], th[2]], [ph[0], ph[1], ph[2] + 2]), ([th[0], th[1], th[2] + 1], [ph[0], ph[1], ph[2] + 2]),
+                         ([th[0], th[1], th[2] + 1], [ph[0], ph[1], 1])):
+            if fails:
+                break
+            m.compute_far_field(build.mm.Angle(*as_api(th2)), build.mm.Angle(*as_api(ph2)))
+            want2 = [(t, p) for p in expected_axis(ph2) for t in expected_axis(th2)]
+            zen2 = list(np.asarray(m.far_field.zen).flat)
+            azi2 = list(np.asarray(m.far_field.azi).flat)
+            if len(zen2) != len(want2) or np.asarray(m.far_field.gain).reshape(-1, 3).shape[0] != len(want2) or \
+                    not all(close(z, w[0]) and close(a, w[1]) for z, a, w in zip(zen2, azi2, want2)):
+                fails.append(('far:angles:later-request', 'after a request for %s x %s the request %s x %s gives %d directions, expected %d '
+                              '(start + i*step, phi outer)' % (th, ph, th2, ph2, len(zen2), len(want2))))
         r, out, err = run(argv)
         if r is not None:
             fails.append(('far:run', 'return value %r: %s' % (r, (out + err)[:200])))
